@@ -11,6 +11,8 @@ def default_to_str(val: Union[Expression, str, int, float]) -> str:
     if isinstance(val, str):
         if val.lower() in ('null', 'true', 'false'):
             return val.lower()
+        elif '\n' in val:
+            return f"'''{prepare_text_for_dbml(val)}'''"
         else:
             return f"'{prepare_text_for_dbml(val)}'"
     elif isinstance(val, Expression):
